@@ -849,6 +849,14 @@ def handleSpec (name : String) (ins ans : List String) : String :=
       match arg.toNat?, parseSigEvs ans with
       | some rate, some evs => optVerdict (Spec.oracleSigC09 rate evs)
       | _, _ => "FAIL unparsable"
+    | "c14ref" =>
+      match ans with
+      | [b, "|", f, "|", e, "||", r] =>
+        let toks (w : String) : List String := if w == "-" then [] else (w.splitOn ",").map (fun m => ((m.splitOn "_off=").headD m))
+        if e != "none" then "FAIL flush() did not end with None"
+        else if toks b ++ toks f == toks r then "ok"
+        else s!"FAIL messages delivered before the cut plus those from repeated flush() ({(toks b ++ toks f).length}) are not what continued silence delivers ({(toks r).length}), in order"
+      | _ => "FAIL unparsable"
     | "c14" =>
       match arg.splitOn ",", ans with
       | [h, full], [b, "|", f, "|", e] =>
